@@ -219,8 +219,6 @@ func (r *Report) writeReplay(o *Obl) string {
 // replayOnRealCode tries to reproduce a refutation on the real code; returns true when a
 // failing input was demonstrated. (Drivers are registered in replay.go.)
 func replayOnRealCode(r *Report, o *Obl, path string) bool {
-	if o.Status != "sat" || o.Model == nil {
-		return false
-	}
+	// a driver may carry its own scenario for obligations that fail without a model
 	return runReplayDriver(r, o, path)
 }
